@@ -1,9 +1,16 @@
+#[cfg(not(redproxy_verif_loom))]
 use std::{
     hash::Hash,
     sync::{
         atomic::{AtomicUsize, Ordering},
         Arc,
     },
+};
+// verification hook: the round-robin cursor becomes a loom atomic when the harness model-checks it
+#[cfg(redproxy_verif_loom)]
+use {
+    loom::sync::atomic::{AtomicUsize, Ordering},
+    std::{hash::Hash, sync::Arc},
 };
 
 use async_trait::async_trait;
